@@ -156,6 +156,11 @@ def load_known():
                 _known_cache = json.load(f)
         else:
             _known_cache = {"findings": []}
+        # development aid only: extra (not yet merged) finding lists
+        for extra in filter(None, os.environ.get("VERIF_EXTRA_KNOWN", "").split(":")):
+            with open(extra) as f:
+                _known_cache["findings"] = (_known_cache.get("findings", []) +
+                                            json.load(f).get("findings", []))
     return _known_cache
 
 
